@@ -18,7 +18,7 @@
 (***************************************************************************)
 EXTENDS Integers, Sequences, FiniteSets, TLC, Json
 
-CONSTANTS MaxLines, Modes, MaxNext, Flags, LineKinds, MaxSep
+CONSTANTS MaxLines, Modes, MaxNext, Flags, LineKinds, MaxSep, MinMarkers
 
 VARIABLES file, chunks, idx, mode, main, offset, stack, pastEnd, raised, diags, hist
 vars == <<file, chunks, idx, mode, main, offset, stack, pastEnd, raised, diags, hist>>
@@ -47,7 +47,11 @@ LineTok(kinds, i) == IF kinds[i] = "m" THEN "M" ELSE IF kinds[i] = "f" THEN "F" 
 RECURSIVE Join(_, _)
 Join(kinds, i) == IF i > Len(kinds) THEN <<>>
                   ELSE <<LineTok(kinds, i)>> \o (IF i < Len(kinds) THEN <<"\n">> ELSE <<>>) \o Join(kinds, i + 1)
-Files == {Join(k, 1) \o t : k \in UNION {[1..n -> LineKinds] : n \in 1..MaxLines}, t \in {<<>>, <<"\n">>}}
+\* MinMarkers focuses a configuration on files with many sections (a split limited to the first few markers only
+\* shows with more of them than any sampled file has)
+Markers(k) == Cardinality({i \in DOMAIN k : k[i] = "m"})
+Files == {Join(k, 1) \o t : k \in {kk \in UNION {[1..n -> LineKinds] : n \in 1..MaxLines} : Markers(kk) >= MinMarkers},
+                            t \in {<<>>, <<"\n">>}}
 
 (* ---------- CONTRACT helpers: absolute positions ---------- *)
 \* 1-based line number in the original file of the character at absolute position p
